@@ -175,6 +175,7 @@ struct Slot {
   volatile uint64_t in_run;
   volatile uint64_t done;
   volatile uint64_t next_idx; // next index this worker would execute (for restarts)
+  volatile uint64_t spawn_start; // first index executed by the current worker process
   char context[160];
   uint64_t nviol;
   uint64_t viol_overflow;
@@ -424,6 +425,10 @@ struct TapeSpec {
   uint64_t seed = 0;
   uint64_t idx = 0;
   std::vector<uint32_t> tape;
+  // Process history to re-create before the run itself (generate-mode runs warm_start,
+  // warm_start+warm_stride, ... , warm_count of them). Needed only for reports that depend on the state a
+  // long-lived worker had accumulated (ThreadSanitizer's shadow cells are evicted pseudo-randomly).
+  uint64_t warm_seed = 0, warm_start = 0, warm_stride = 0, warm_count = 0;
 };
 
 struct Outcome {
@@ -703,6 +708,15 @@ static Outcome eval_forked(const TapeSpec& spec, bool verbose, double timeout_s 
     }
     g_slot = g_eval_slot;
     g_cc.n = 0;
+    for (uint64_t i = 0; i < spec.warm_count; i++) {
+      TapeSpec w;
+      w.seed = spec.warm_seed;
+      w.idx = spec.warm_start + i * spec.warm_stride;
+      g_eval_slot->record_tape = 0;
+      (void)run_one(w, false);
+    }
+    g_eval_slot->record_tape = 1;
+    g_eval_slot->tape_len = 0;
     Outcome o = run_one(spec, verbose);
     std::string s = serialize(o);
     size_t off = 0;
@@ -983,7 +997,7 @@ static void mkdir_p(const std::string& path) {
 }
 
 static std::string write_replay_file(const std::string& dir, const Engine& e, const Outcome& o, uint64_t seed, uint64_t idx,
-    const ShrinkStats& st, size_t original_len) {
+    const ShrinkStats& st, size_t original_len, const TapeSpec& spec) {
   mkdir_p(dir);
   std::string path = dir + "/" + sanitize_filename(o.cls) + "-" + sanitize_filename(o.key) + strprintf("-%llu-%llu.json", (unsigned long long)seed, (unsigned long long)idx);
   FILE* f = fopen(path.c_str(), "w");
@@ -994,6 +1008,8 @@ static std::string write_replay_file(const std::string& dir, const Engine& e, co
   fprintf(f, " \"seed\": %llu,\n \"run_index\": %llu,\n", (unsigned long long)seed, (unsigned long long)idx);
   fprintf(f, " \"hash\": \"%016llx\",\n", (unsigned long long)o.hash);
   fprintf(f, " \"original_tape_length\": %zu,\n \"shrink_attempts\": %d,\n", original_len, st.attempts);
+  fprintf(f, " \"warmup\": [%llu, %llu, %llu, %llu],\n", (unsigned long long)spec.warm_seed, (unsigned long long)spec.warm_start,
+      (unsigned long long)spec.warm_stride, (unsigned long long)spec.warm_count);
   fprintf(f, " \"tape\": [");
   for (size_t i = 0; i < o.tape.size(); i++) fprintf(f, "%s%u", i ? "," : "", o.tape[i]);
   fprintf(f, "],\n \"tape_annotated\": [");
@@ -1007,7 +1023,7 @@ static std::string write_replay_file(const std::string& dir, const Engine& e, co
 
 // ------------------------------------------------------------------ replay mode
 
-static bool load_replay(const std::string& path, std::vector<uint32_t>& tape, std::string& cls, std::string& key, std::string& hash) {
+static bool load_replay(const std::string& path, std::vector<uint32_t>& tape, std::string& cls, std::string& key, std::string& hash, TapeSpec& spec) {
   std::string text = read_file_head(path, 64 << 20);
   jsonmin::Value v;
   std::string err;
@@ -1021,6 +1037,13 @@ static bool load_replay(const std::string& path, std::vector<uint32_t>& tape, st
   cls = v.get_str("class");
   key = v.get_str("key");
   hash = v.get_str("hash");
+  const jsonmin::Value* wu = v.get("warmup");
+  if (wu && wu->is_array() && wu->arr.size() == 4) {
+    spec.warm_seed = (uint64_t)wu->arr[0].num;
+    spec.warm_start = (uint64_t)wu->arr[1].num;
+    spec.warm_stride = (uint64_t)wu->arr[2].num;
+    spec.warm_count = (uint64_t)wu->arr[3].num;
+  }
   return true;
 }
 
@@ -1066,6 +1089,7 @@ struct Candidate {
   uint64_t idx;
   std::string cls, key; // as reported by the worker ("" for crashes until re-evaluated)
   bool crash;
+  uint64_t hist_start = 0, hist_count = 0; // worker history before the dying run (crash candidates)
 };
 
 static bool is_fault_counter(const std::string& n) { return n.rfind("fault:", 0) == 0; }
@@ -1162,11 +1186,11 @@ int driver_main(int argc, char** argv, const Engine& e) {
   if (!replay_file.empty()) {
     std::vector<uint32_t> tape;
     std::string cls, key, hash;
-    if (!load_replay(replay_file, tape, cls, key, hash)) return 2;
     TapeSpec sp;
+    if (!load_replay(replay_file, tape, cls, key, hash, sp)) return 2;
     sp.replay = true;
     sp.tape = tape;
-    Outcome o = eval_forked(sp, true, 10.0);
+    Outcome o = eval_forked(sp, true, sp.warm_count ? 60.0 : 10.0);
     printf("REPLAY-RESULT kind=%d class=%s key=%s hash=%016llx\n", (int)o.kind, o.cls.c_str(), o.key.c_str(), (unsigned long long)o.hash);
     for (auto& l : o.trace) printf("  | %s\n", l.c_str());
     if (o.kind == Outcome::VIOLATION || o.kind == Outcome::CRASH || o.kind == Outcome::TIMEOUT) {
@@ -1227,6 +1251,7 @@ int driver_main(int argc, char** argv, const Engine& e) {
       g_cc.n = 0;
       g_keep_events = false;
       Slot* s = g_slot;
+      s->spawn_start = s->next_idx;
       uint64_t n_in_proc = 0;
       signal(SIGALRM, SIG_DFL);
       for (uint64_t idx = s->next_idx; idx < (uint64_t)runs; idx += workers) {
@@ -1305,7 +1330,12 @@ int driver_main(int argc, char** argv, const Engine& e) {
     if (storm && WIFSIGNALED(status) && WTERMSIG(status) == SIGKILL) continue; // stopped by us
     crash_count++;
     uint64_t idx = s->cur_idx;
-    cands.push_back({idx, "", "", true});
+    {
+      Candidate cd{idx, "", "", true};
+      cd.hist_start = s->spawn_start;
+      cd.hist_count = idx >= s->spawn_start ? (idx - s->spawn_start) / workers : 0;
+      cands.push_back(cd);
+    }
     s->next_idx = idx + workers;
     s->in_run = 0;
     if (crash_count >= 16) {
@@ -1373,7 +1403,9 @@ int driver_main(int argc, char** argv, const Engine& e) {
     uint64_t idx;
     uint64_t count;
     Outcome outcome;
+    uint64_t hist_start = 0, hist_count = 0; // reproduces only after this worker history (see TapeSpec)
   };
+  std::vector<std::string> unreproduced;
   std::vector<Group> groups;
   auto find_group = [&](const std::string& cls, const std::string& key) -> Group* {
     for (auto& g : groups)
@@ -1392,11 +1424,21 @@ int driver_main(int argc, char** argv, const Engine& e) {
       sp.seed = seed;
       sp.idx = c.idx;
       Outcome o = eval_forked(sp, true, 10.0);
+      bool needs_history = false;
+      if (o.kind == Outcome::OK && c.hist_count > 0) {
+        // the report may depend on the state the worker had accumulated: re-create its history first
+        sp.warm_seed = seed;
+        sp.warm_start = c.hist_start;
+        sp.warm_stride = workers;
+        sp.warm_count = c.hist_count;
+        o = eval_forked(sp, true, 60.0);
+        needs_history = o.kind != Outcome::OK;
+      }
       if (o.kind == Outcome::OK) {
-        harness_fault = true;
-        harness_fault_msg = strprintf("worker died during run %llu but a fresh evaluation of that run is clean", (unsigned long long)c.idx);
+        unreproduced.push_back(strprintf("worker died during run %llu but neither a fresh evaluation nor a re-creation of the worker's history reproduces it", (unsigned long long)c.idx));
         continue;
       }
+      if (!needs_history) c.hist_count = 0;
       if (o.kind == Outcome::TIMEOUT) max_crash_evals = std::min(max_crash_evals, 3); // each hang costs the watchdog time
       c.cls = o.cls;
       c.key = o.key;
@@ -1406,7 +1448,12 @@ int driver_main(int argc, char** argv, const Engine& e) {
       g->count++;
       continue;
     }
-    groups.push_back({c.cls, c.key, c.idx, 1, Outcome()});
+    Group ng{c.cls, c.key, c.idx, 1, Outcome()};
+    if (c.crash && c.hist_count) {
+      ng.hist_start = c.hist_start;
+      ng.hist_count = c.hist_count;
+    }
+    groups.push_back(ng);
   }
 
   int unknown_violations = 0;
@@ -1418,6 +1465,12 @@ int driver_main(int argc, char** argv, const Engine& e) {
     TapeSpec sp;
     sp.seed = seed;
     sp.idx = g.idx;
+    if (g.hist_count) {
+      sp.warm_seed = seed;
+      sp.warm_start = g.hist_start;
+      sp.warm_stride = workers;
+      sp.warm_count = g.hist_count;
+    }
     bool is_hang = g.cls.rfind("hang/", 0) == 0;
     if (is_hang && ++hang_groups > 2) {
       // every confirmation of a hang costs the watchdog time; two fully processed groups are enough
@@ -1426,6 +1479,13 @@ int driver_main(int argc, char** argv, const Engine& e) {
     }
     Outcome o1 = eval_forked(sp, true, 10.0);
     Outcome o2 = is_hang ? o1 : eval_forked(sp, true, 10.0);
+    if (g.hist_count && !(same_violation(o1, g.cls, g.key) && same_violation(o2, g.cls, g.key))) {
+      // a sanitizer report that needed the worker's accumulated state and does not come back reliably even
+      // when that history is re-created (ThreadSanitizer keeps a bounded, pseudo-randomly evicted access
+      // history): noted, never reported as a violation without a reproducing replay
+      unreproduced.push_back(strprintf("run %llu: %s [%s] was reported inside a long-lived worker but does not reproduce reliably", (unsigned long long)g.idx, g.cls.c_str(), g.key.c_str()));
+      continue;
+    }
     if (!(same_violation(o1, g.cls, g.key) && same_violation(o2, g.cls, g.key) && o1.hash == o2.hash && o1.tape == o2.tape)) {
       harness_fault = true;
       harness_fault_msg = strprintf("determinism gate failed for run %llu: worker said %s [%s]; re-evaluations gave kind=%d %s [%s] hash=%016llx and kind=%d %s [%s] hash=%016llx",
@@ -1447,12 +1507,16 @@ int driver_main(int argc, char** argv, const Engine& e) {
     ShrinkStats st;
     std::vector<uint32_t> tape = o1.tape;
     size_t original_len = tape.size();
-    if (!no_shrink && reported <= 3 && !is_hang) {
+    if (!no_shrink && reported <= 3 && !is_hang && !g.hist_count) {
       tape = shrink_tape(tape, g.cls, g.key, 1500, 25.0, st);
     }
     TapeSpec rp;
     rp.replay = true;
     rp.tape = tape;
+    rp.warm_seed = sp.warm_seed;
+    rp.warm_start = sp.warm_start;
+    rp.warm_stride = sp.warm_stride;
+    rp.warm_count = sp.warm_count;
     Outcome fin = is_hang ? o1 : eval_forked(rp, true, 10.0);
     if (!same_violation(fin, g.cls, g.key)) {
       // shrinking must preserve the violation; fall back to the original tape
@@ -1465,7 +1529,7 @@ int driver_main(int argc, char** argv, const Engine& e) {
       }
     }
     if (fin.tape.empty()) fin.tape = rp.tape;
-    std::string path = write_replay_file(replay_dir, e, fin, seed, g.idx, st, original_len);
+    std::string path = write_replay_file(replay_dir, e, fin, seed, g.idx, st, original_len, rp);
     // fresh-process replay must reproduce exactly
     std::string line = fresh_process_replay(self, path, {});
     std::string want = strprintf("class=%s key=%s hash=%016llx", fin.cls.c_str(), fin.key.c_str(), (unsigned long long)fin.hash);
@@ -1616,6 +1680,11 @@ int driver_main(int argc, char** argv, const Engine& e) {
   }
   for (auto& l : known_lines) printf("%s\n", l.c_str());
   remove_work_dir();
+  for (auto& u : unreproduced) printf("note: %s\n", u.c_str());
+  if (!unreproduced.empty() && unknown_violations == 0 && !harness_fault) {
+    harness_fault = true;
+    harness_fault_msg = unreproduced[0];
+  }
   if (harness_fault) {
     fprintf(stderr, "HARNESS-FAULT (not a property verdict): %s\n", harness_fault_msg.c_str());
     return 2;
